@@ -280,8 +280,9 @@ def block_graphs(draw, max_n):
     names = [str(i) for i in range(n)]
     syms = names + list(EXT)
     g = {}
+    dense = draw(st.integers(0, 3)) == 0  # a quarter of the graphs: (almost) every block has three successors
     for k in names:
-        d = draw(st.integers(0, 3))
+        d = draw(st.sampled_from([3, 3, 3, 2])) if dense else draw(st.integers(0, 3))
         g[k] = tuple(draw(st.sampled_from(syms)) if draw(st.integers(0, 9)) else k for _ in range(d))
     return g
 
